@@ -334,3 +334,16 @@ reg("C16", [
     "Packet and Question have no PartialEq/Hash; their owned copies are covered through C02.packet (parse borrows, build owns)",
     "InstanceInformation (simple-mdns) equality/hash is not covered by this obligation",
 ])
+
+reg("C12", [
+    M("C12", "observers", "observers",
+      "per record type (41 variants + NULL), up to 4 (8) shapes: record parsed from its reference bytes with every label / string / blob "
+      "byte symbolic (all UTF-8 validity classes), then Debug, Display, clone, into_owned, ==, Hash, match_qtype/qclass, TXT attributes / "
+      "long_attributes / String::try_from; plus Debug of a whole parsed packet (scenario mx_srv)",
+      ["<ResourceRecord as Debug>::fmt and the derive(Debug) chain of RData and every RDATA type", "<Name as Display|Debug>::fmt", "<Label as Display|Debug>::fmt",
+       "<CharacterString as Display|Debug>::fmt", "TXT::{attributes,long_attributes}", "<String as TryFrom<TXT|CharacterString>>::try_from",
+       "ResourceRecord::{clone,into_owned,eq,hash,match_qtype,match_qclass}", "<Packet as Debug>::fmt"]),
+], [
+    "core::fmt (Formatter, Arguments templates, debug builders) is a model; the crate's own fmt impls are executed from MIR",
+    "from_utf8 / from_utf8_lossy validity is decided exactly by a z3 formula of the UTF-8 well-formedness table",
+])
